@@ -339,14 +339,18 @@ def applyLock (db : DB) (c : Cmd) : LockBranch → DB × List Reply
     let c' := { c with lockId := h.cmd.lockId }
     let (db1, h') := updateHold db h c'
     let k' := { k with holders := replaceHolder k.holders h h' }
-    (db1.setKey k', [mkReply c' RESULT_LOCKED_ERROR k.locked h.depth])
+    -- (fix: C04) the update may have raised the hold's Count: a wake pass follows the reply
+    let (db2, k2, out) := wake db1 k' [mkReply c' RESULT_LOCKED_ERROR k.locked h.depth]
+    (db2.setKey k2, out)
   | .relockNoHold h => (db, [mkReply c RESULT_SUCCED (db.getKey c.key).locked h.depth])
   | .relock h =>
     let k := db.getKey c.key
     let (db1, h1) := updateHold db { h with depth := h.depth + 1 } c
     let k' := { k with holders := replaceHolder k.holders h h1, locked := k.locked + 1 }
     let db2 := { db1 with ctr := { db1.ctr with lockCount := db1.ctr.lockCount + 1, lockedCount := db1.ctr.lockedCount + 1 } }
-    (db2.setKey k', [mkReply c RESULT_SUCCED k'.locked h1.depth])
+    -- (fix: C04) the re-lock replaces the hold's command (its Count may be higher): a wake pass follows the reply
+    let (db3, k3, out) := wake db2 k' [mkReply c RESULT_SUCCED k'.locked h1.depth]
+    (db3.setKey k3, out)
   | .relockRefused h => (db, [mkReply c RESULT_LOCKED_ERROR (db.getKey c.key).locked h.depth])
   | .unlockedWaitRefused => (db, [mkReply c RESULT_UNOWN_ERROR (db.getKey c.key).locked 0])
   | .grant =>
@@ -428,8 +432,10 @@ def applyUnlock (db : DB) (c : Cmd) : UnlockBranch → DB × List Reply
     let ws := removeWaiter k.waiters w
     let k' := { k with waiters := ws, waited := if ws.isEmpty then false else k.waited }
     let db1 := { db with ctr := { db.ctr with waitCount := db.ctr.waitCount - 1, unLockCount := db.ctr.unLockCount + 1 } }
-    (db1.setKey k', [mkReply c RESULT_LOCKED_ERROR k.locked 0,
-                     mkReply { w.cmd with conn := w.conn } RESULT_UNLOCK_ERROR k.locked 0])
+    -- (fix: C04) the cancelled request may have been the head of the queue: a wake pass follows the two replies
+    let (db2, k2, out) := wake db1 k' [mkReply c RESULT_LOCKED_ERROR k.locked 0,
+                                       mkReply { w.cmd with conn := w.conn } RESULT_UNLOCK_ERROR k.locked 0]
+    (db2.setKey k2, out)
   | .dec h c' =>
     let k := db.getKey c.key
     let h' := { h with depth := h.depth - 1 }
@@ -454,7 +460,9 @@ def fireTimeout (db : DB) (key : Nat) (w : Waiter) : DB × List Reply :=
   let ws := removeWaiter k.waiters w
   let k' := { k with waiters := ws, waited := if ws.isEmpty then false else k.waited }
   let db1 := { db with ctr := { db.ctr with waitCount := db.ctr.waitCount - 1, timeoutedCount := db.ctr.timeoutedCount + 1 } }
-  (db1.setKey k', [mkReply { w.cmd with conn := w.conn } RESULT_TIMEOUT k.locked 0])
+  -- (fix: C04) the timed-out request may have been the head of the queue: a wake pass follows the reply
+  let (db2, k2, out) := wake db1 k' [mkReply { w.cmd with conn := w.conn } RESULT_TIMEOUT k.locked 0]
+  (db2.setKey k2, out)
 
 /-- `doExpried` for a live hold on the leader. -/
 def fireExpire (db : DB) (key : Nat) (h : Hold) : DB × List Reply :=
